@@ -2242,9 +2242,189 @@ def check_refine_points(ck, fn, g, fkey, calls):
 # driver
 # =====================================================================================================
 
+def check_inverse_total(ck, facts, rule="E6.inverse-unconditional"):
+    """Math::invert_matrix (kernel/util/math.hpp, outside the anchor list): the GridTransfer assemblers call it in statement position and deliberately ignore the
+    returned determinant (it may underflow on fine meshes although the inversion is fine), so they rely on the inversion being carried out for EVERY matrix: the
+    function has no exit that depends on the matrix entries.  Every return statement lies outside the elimination loops and is guarded only by conditions over
+    the scalar / pointer parameters (argument validity, the 1x1 case); values derived from a[...] (pivot, determinant) never decide whether the function returns.
+    A data-dependent early return (absolute pivot threshold) leaves the matrix uninverted for small cells while ||M*N|| is still a normal number."""
+    users = {}
+    for fn in facts.functions:
+        if fn.tk == "pattern" or not strip_targs(fn.qn).startswith("FEAT::Assembly::GridTransfer::"):
+            continue
+        par = dfl.parents(fn)
+        for c in stmt_calls(fn):
+            if c.get("k") == "Call" and strip_targs(c.get("callee", "") or "") == "FEAT::Math::invert_matrix":
+                pr = par.get(id(c))
+                if pr is not None and pr[0].get("k") in ("Block", "If", "For", "While", "Do", "ForRange"):       # the status is discarded
+                    g = norm.find_callee(facts, c)
+                    if g is None:
+                        ck.incomplete(rule, "%s: the body of %s is not in the fact base" % (fn_key(fn), c.get("cfull") or c.get("callee")))
+                    else:
+                        users.setdefault(id(g), (g, fn))
+    for g, user in users.values():
+        key = short(g.full.replace("FEAT::", ""))
+        ptr = {p_["d"]: p_["n"] for p_ in g.params if g.type(p_["t"]).strip().endswith("*")}
+        par = dfl.parents(g)
+        # locals that (transitively) hold values read from the arrays
+        tainted = set()
+        changed = True
+
+        def reads_data(e):
+            for x in walk(e):
+                if x.get("k") == "Index" or (x.get("k") == "Un" and x.get("op") == "*"):
+                    return True
+                if x.get("k") == "Ref" and x.get("dk") == "local" and x.get("d") in tainted:
+                    return True
+            return False
+        while changed:
+            changed = False
+            for n in dfl.own_nodes(g):
+                d_ = None
+                if n.get("k") == "Var" and n.get("init") is not None and reads_data(n["init"]):
+                    d_ = n["d"]
+                elif n.get("k") == "Assign" and n["lhs"].get("k") == "Ref" and n["lhs"].get("dk") == "local" and (reads_data(n["rhs"]) or (n.get("op") != "=" and n["lhs"]["d"] in tainted)):
+                    d_ = n["lhs"]["d"]
+                if d_ is not None and d_ not in tainted:
+                    # (control dependence: a local assigned under a data-dependent condition is data-dependent too)
+                    tainted.add(d_)
+                    changed = True
+            for n in dfl.own_nodes(g):
+                if n.get("k") in ("Assign", "Var") and (n.get("k") == "Var" or n["lhs"].get("k") == "Ref"):
+                    d_ = n["d"] if n.get("k") == "Var" else n["lhs"].get("d")
+                    if d_ not in tainted and any(reads_data(cn) for cn, br in enclosing_conds_c18(par, n)):
+                        tainted.add(d_)
+                        changed = True
+        problems, unknown = [], []
+        rets = [n for n in dfl.own_nodes(g) if n.get("k") == "Return"]
+        for r_ in rets:
+            conds = [cn for cn, br in enclosing_conds_c18(par, r_)]
+            loops = dfl.enclosing_loops(g, par, r_)
+            dep = [cn for cn in conds if reads_data(cn)] + [L.get("c") for L in loops if L.get("c") is not None and reads_data(L["c"])]
+            if dep:
+                problems.append((r_.get("l"), "return %s under the condition %s, which depends on the matrix entries: for such matrices the function returns without having "
+                                 "inverted the matrix, and the caller %s discards the status" % (render(r_.get("e"))[:30], render(dep[0])[:70], fn_key(user))))
+            elif loops:
+                unknown.append((r_.get("l"), "return inside the loop at line %s (whether the elimination is complete there is not modelled)" % loops[-1].get("l")))
+        if not rets:
+            unknown.append((g.line, "no return statement found"))
+        if unknown and not problems:
+            ck.incomplete(rule, "%s: %s" % (key, "; ".join("line %s: %s" % u for u in unknown)[:300]))
+            continue
+        ck.ob(rule, key, not problems, "; ".join("line %s: %s" % p_ for p_ in problems) or
+              "%d return statement(s), none inside the elimination loops, none guarded by a condition that reads the matrix; the status is discarded by %s" % (len(rets), fn_key(user)),
+              g.file, problems[0][0] if problems else g.line)
+
+
+def check_mesh_permutation(ck, facts, rule="E2.mesh-permutation-dims"):
+    """Geometry::MeshPermutation (kernel/geometry/mesh_permutation.hpp, outside the anchor list; GridTransfer reads get_perm() / get_inv_perm() of the fine and the coarse mesh
+    and takes the un-permuted branch when they are empty): the permutations are stored per entity dimension in member arrays of extent shape_dim+1, the cell permutation
+    at index shape_dim.  Every loop of a member function that subscripts these member arrays (of *this or of another MeshPermutation) with its loop variable — copy in
+    clone(), inversion in create_inverse_permutations(), construction, validation, size computation — covers the whole extent 0 .. shape_dim.  A loop that stops at
+    shape_dim-1 silently leaves the CELL permutation empty / stale: the transfer between permuted meshes then pairs wrong child cells."""
+    def const_of(e, depth=0, rs=None):
+        e = norm._strip(rs.value(e) if rs is not None and e is not None else e)
+        if e is None or depth > 8:
+            return None
+        if e.get("k") == "Int":
+            return int(e["v"])
+        if e.get("k") == "Ref" and e.get("v") is not None:
+            try:
+                return int(e["v"])
+            except (TypeError, ValueError):
+                return None
+        if e.get("k") in ("Construct", "TempObj", "Cast") and (e.get("e") is not None or len(e.get("a", [])) == 1):
+            return const_of(e.get("e") if e.get("e") is not None else e["a"][0], depth + 1, rs)
+        if e.get("k") == "Bin" and e.get("op") in ("+", "-", "*"):
+            a, b = const_of(e["lhs"], depth + 1, rs), const_of(e["rhs"], depth + 1, rs)
+            if a is None or b is None:
+                return None
+            return a + b if e["op"] == "+" else (a - b if e["op"] == "-" else a * b)
+        return None
+    seen = set()
+    for fn in facts.functions:
+        if fn.tk == "pattern" or strip_targs(fn.cls) != "FEAT::Geometry::MeshPermutation" or fn.cfg is None:
+            continue
+        rs = Resolver(fn)
+        par = dfl.parents(fn)
+        mods_ = norm._mods_of(fn)
+        nloop = 0
+        for L in dfl.own_nodes(fn):
+            if L.get("k") not in ("For", "While", "ForRange", "Do"):
+                continue
+            lr = norm.loop_range(fn, L, par, mods_) if L.get("k") in ("For", "While") else None
+            # member arrays subscripted with the loop variable
+            hits = []
+            for n in dfl.own_walk(L.get("body")):
+                base = ix = None
+                if n.get("k") == "OpCall" and n.get("op") == "[]" and len(n.get("a", [])) == 2:
+                    base, ix = n["a"]
+                elif n.get("k") == "MCall" and callee_name(n) == "at" and len(n.get("a", [])) == 1:
+                    base, ix = n.get("obj"), n["a"][0]
+                elif n.get("k") == "Index":
+                    base, ix = n["b"], n["idx"]
+                if base is None:
+                    continue
+                bb = norm._strip(base)
+                if not (bb is not None and bb.get("k") == "Member" and bb.get("field")):
+                    continue
+                t = (n.get("ccls") or "") if n.get("k") in ("OpCall", "MCall") else fn.ntype(bb)
+                m = re.search(r"^std::array<.*, (\d+)>$", t.strip()) or re.search(r"\[(\d+)\]$", t.strip())
+                if not m:
+                    continue
+                iv = norm._strip(ix)
+                if lr is not None and iv is not None and iv.get("k") == "Ref" and iv.get("d") == lr["var"]:
+                    hits.append((bb.get("n"), int(m.group(1)), n))
+                elif lr is None and iv is not None and iv.get("k") == "Ref" and iv.get("dk") == "local" and iv.get("d") in mods_ and any(
+                        any(a_ is L for a_, s_ in dfl.enclosing_stmt_chain(par, m_)) for m_ in mods_[iv["d"]]):
+                    hits.append((bb.get("n"), int(m.group(1)), n))
+            if not hits:
+                continue
+            nloop += 1
+            key = "%s::%s/loop#%d(%s)" % (short(fn.cls.replace("FEAT::", "")), fn.name, nloop, ",".join(sorted({h[0] for h in hits})))
+            if (key, fn.line) in seen:
+                continue
+            seen.add((key, fn.line))
+            extents = {h[1] for h in hits}
+            if lr is None or lr["sign"] < 0 or len(extents) != 1:
+                ck.incomplete(rule, "%s: the loop at line %s over the per-dimension arrays is not a recognised ascending counting loop" % (key, L.get("l")))
+                continue
+            E = extents.pop()
+            a, b = const_of(lr["start"], 0, rs), const_of(lr["bound"], 0, rs)
+            bnd = norm._strip(rs.value(lr["bound"]))
+            if b is None and bnd is not None and bnd.get("k") == "MCall" and callee_name(bnd) == "size" and (bnd.get("ccls") or "").startswith("std::array<"):
+                m2 = re.search(r", (\d+)>$", bnd["ccls"].strip())
+                b = int(m2.group(1)) if m2 else None
+            if a is None or b is None or lr["cmp"] not in ("<", "<=", "!="):
+                ck.incomplete(rule, "%s: bounds (%s, %s %s) of the loop at line %s are not compile-time constants" % (key, render(lr["start"]), lr["cmp"], render(lr["bound"])[:40], L.get("l")))
+                continue
+            N = b + 1 if lr["cmp"] == "<=" else b
+            ok = (a == 0 and N == E)
+            ck.ob(rule, key, ok,
+                  ("the loop at line %s runs over dimensions %d .. %d but the member array(s) %s have %d entries (dimensions 0 .. shape_dim = %d): %s" % (
+                      L.get("l"), a, N - 1, ", ".join(sorted({h[0] for h in hits})), E, E - 1,
+                      "dimension(s) %s are never processed — the cell permutation (index shape_dim) stays empty / stale" % ", ".join(map(str, [x for x in range(E) if x < a or x >= N]))
+                      if N <= E else "the loop runs past the end of the array")) if not ok else
+                  "covers all %d entity dimensions 0 .. shape_dim of %s" % (E, ", ".join(sorted({h[0] for h in hits}))), fn.file, L.get("l"))
+
+
+def enclosing_conds_c18(par, n):
+    """[(condition node, branch)] of the if statements / conditional expressions around n (innermost first)"""
+    out = []
+    cur = n
+    while id(cur) in par:
+        p_, slot = par[id(cur)]
+        if p_.get("k") in ("If", "Cond") and slot in ("then", "else"):
+            out.append((p_["c"], slot))
+        elif p_.get("k") == "Switch" and slot == "body":
+            out.append((p_["c"], "case"))
+        cur = p_
+    return out
+
+
 def load_main(ck, alt=False):
     files = "|".join([R("kernel/lafem/transfer.hpp"), R("kernel/global/transfer.hpp"), R("kernel/assembly/grid_transfer.hpp"),
-                      R("control/"), R("kernel/geometry/intern/coarse_fine_cell_mapping.hpp")])
+                      R("control/"), R("kernel/geometry/intern/coarse_fine_cell_mapping.hpp"), R("kernel/util/math.hpp"), R("kernel/geometry/mesh_permutation.hpp")])
     facts = featlib.extract("tu/c18_transfer.cpp", files=files, extra=("-DC18_ALT",) if alt else ())
     ck.tu(facts)
     for e in facts.errors_outside_repo():
@@ -2335,6 +2515,13 @@ def declare_rules(ck):
             "assignment) and consumed (inverted, multiplied, scattered) is reset (format() / assigned as a whole) inside the innermost loop that contains both the accumulation and the "
             "consumer, before the accumulation. Broken (reset hoisted out of the cell loop) => from the second cell on the local still holds the sum over the cells visited so far: wrong "
             "for every mesh with more than one coarse cell", 32)
+    ck.rule("E6.inverse-unconditional", "Math::invert_matrix (kernel/util/math.hpp; its determinant is deliberately discarded by the GridTransfer assemblers — checked: the call is in "
+            "statement position): no exit of the function depends on the matrix entries; every return lies outside the elimination loops and is guarded only by conditions over "
+            "the scalar / pointer parameters. Broken (absolute pivot threshold with early return) => for small cells (mesh in micrometre units, float on fine 3D meshes) the local mass "
+            "matrix is silently left uninverted", 1)
+    ck.rule("E2.mesh-permutation-dims", "Geometry::MeshPermutation (kernel/geometry/mesh_permutation.hpp; GridTransfer reads get_perm()/get_inv_perm() and takes the un-permuted branch if "
+            "empty): every loop of a member function that subscripts the per-dimension member arrays (extent shape_dim+1, cell permutation last) with its loop variable covers "
+            "0 .. shape_dim. Broken (`<` instead of `<=`) => the cell permutation is not copied / inverted: transfers on a cloned permuted mesh pair wrong child cells", 10)
     ck.rule("E2.refined-point", "the coarse evaluator is evaluated at point child*n+k of the rule refined from the rule whose point k the fine evaluator uses "
             "(layout i*n+j of Cubature::RefineFactoryCore); any other index pairs fine and coarse basis values at different physical points", 13)
 
@@ -2454,6 +2641,8 @@ def run(tier):
     norm.run_with_inlining(once, check_lafem_transfer, facts, inl)
     norm.run_with_inlining(once, check_global_transfer, facts, inl)
     analyse(ck, facts, once)
+    norm.run_with_inlining(once, check_inverse_total, facts, inl)
+    norm.run_with_inlining(once, check_mesh_permutation, facts, inl)
     route_note(ck, facts)
     # hand-built transfers in the tutorials / applications
     extra = [("tutorials/tutorial_05_multigrid.cpp", None, None)]
